@@ -141,8 +141,8 @@ func TestPropOverlayExhaustive(t *testing.T) {
 	n += exhaust(t, 3, 5, 1, false)
 	if vlib.Thorough() {
 		n += exhaust(t, 3, 8, 1, false)
-		n += exhaust(t, 4, 6, 1, false)
+		n += exhaust(t, 4, 5, 1, false)
 	}
-	vlib.Exhaustive("chunk-lists:k<=2/8B(size>=0),k=3/5B"+map[bool]string{true: ",k=3/8B,k=4/6B", false: ""}[vlib.Thorough()]+" x all weak mtime orderings x all windows", true)
+	vlib.Exhaustive("chunk-lists:k<=2/8B(size>=0),k=3/5B"+map[bool]string{true: ",k=3/8B,k=4/5B", false: ""}[vlib.Thorough()]+" x all weak mtime orderings x all windows", true)
 	_ = n
 }
